@@ -34,6 +34,7 @@ func runC01(r *Report, p *Program) {
 	c01R5(h)
 	c01R6(h)
 	c01R7(h)
+	c01R8(h)
 }
 
 func isEdgesMapLookup(in ssa.Instruction) (*ssa.Lookup, bool) {
